@@ -732,6 +732,43 @@ def fresh_rebuild_determinism(c, cfg):
                 {'config': cfg.desc(), 'seed': seed, 'score': pdesc, 'first': o1['rewards'].tolist(), 'second': o2['rewards'].tolist()})
 
 
+def production_jit_stage(c):
+  """The way the GP designers call the optimiser: `eqx.filter_jit(optimizer)(score_fn, ...)` - the optimiser OBJECT
+  (its strategy, sampler and projection as static fields) is part of the compilation cache key.  Two studies in one
+  process with the same numbers of features but different arities, the same score-function object: the second must
+  be optimised over ITS categories."""
+  E = env()
+  jax, jnp, vz, vb, es = E['jax'], E['jnp'], E['vz'], E['vb'], E['es']
+  try:
+    import equinox as eqx
+  except Exception as e:  # pylint: disable=broad-except
+    c.notes.append('equinox not importable: %r' % (e,))
+    return
+
+  def score(x, seed=None):
+    del seed
+    return jnp.sum(x.continuous.padded_array, axis=(-1, -2)) + 0.1 * jnp.sum(x.categorical.padded_array, axis=(-1, -2))
+  for pair in ([[5, 2], [2, 5]], [[4, 4, 3], [2, 2, 3]]):
+    for ar in pair:
+      problem = vz.ProblemStatement(metric_information=[vz.MetricInformation(name='obj', goal=vz.ObjectiveMetricGoal.MAXIMIZE)])
+      problem.search_space.root.add_float_param('x', 0.0, 1.0)
+      for j, a in enumerate(ar):
+        problem.search_space.root.add_categorical_param('c%d' % j, [str(v) for v in range(a)])
+      conv = E['converters'].TrialToModelInputConverter.from_problem(problem)
+      opt = vb.VectorizedOptimizerFactory(strategy_factory=es.VectorizedEagleStrategyFactory(), max_evaluations=60, suggestion_batch_size=10)(conv)
+      res = eqx.filter_jit(opt)(score, count=4, seed=jax.random.PRNGKey(3))
+      cat = np.asarray(res.features.categorical.padded_array if hasattr(res.features.categorical, 'padded_array') else res.features.categorical)
+      cat = cat.reshape(cat.shape[0], -1)[:, :len(ar)]
+      c.traces += 1
+      c.count(1, ('production-jit', tuple(ar)), kind='production-jit')
+      badcols = [j for j, a in enumerate(ar) if np.any(cat[:, j] < 0) or np.any(cat[:, j] >= a)]
+      if badcols:
+        c.prop_fail('categorical-index-out-of-range:production-jit',
+                    'eqx.filter_jit(optimizer)(score) for a study with categorical arities %s (after a study with arities %s in the same process) returned category indices %s for feature %d' % (
+                        ar, pair[0], cat[:, badcols[0]].tolist(), badcols[0]),
+                    {'arities': ar, 'earlier_study_arities': pair[0], 'categorical': cat.tolist()})
+
+
 def lbfgsb_stage(c):
   """L-BFGS-B optimiser (not a top-k of evaluated batches; property stage only)."""
   E = env()
@@ -943,6 +980,7 @@ def run(c):
     c.flags['negativeNaNRanksBelowPlaceholder'] = bool(np.all(np.isneginf(outn['rewards'])))
   to_trials_stage(c)
   parallel_stage(c)
+  production_jit_stage(c)
   fresh_rebuild_determinism(c, cfgs[0])
   if not quick:
     fresh_rebuild_determinism(c, cfgs[5])
